@@ -12,7 +12,9 @@ import json
 import os
 import string
 
-from .. import core, motlutil, starutil as su
+import pathlib
+
+from .. import argguard, core, motlutil, starutil as su
 
 READ_INVS = ["C02_GrammarUnambiguous", "C02_WriterReadable", "C02_ColumnTypes"]
 
@@ -34,6 +36,8 @@ def read_api(path, variant, nblocks):
     """The call under test, in the forms the library offers."""
     from cryocat.starfileio import Starfile
     v = variant % 3
+    if variant % 2 == 1:
+        path = pathlib.Path(path)               # str and Path are both accepted
     if v == 0:
         frames, specs, _ = Starfile.read(path)
         return list(frames), list(specs)
@@ -280,7 +284,12 @@ def gen_table(rng, nr, nc):
     for k in kinds:
         if k == "int":
             hi = rng.choice([9, 1000, 10 ** 6, 10 ** 12])
-            cols.append([rng.randint(-hi, hi) for _ in range(nr)])
+            col = [rng.randint(-hi, hi) for _ in range(nr)]
+            if rng.random() < 0.12:              # block boundaries of the integer types
+                for r in range(nr):
+                    if rng.random() < 0.5:
+                        col[r] = rng.choice([2 ** 31 - 1, 2 ** 31, -2 ** 31, -2 ** 31 - 1, 2 ** 32, 2 ** 53 - 1, 2 ** 53, 10 ** 15])
+            cols.append(col)
         elif k == "float":
             cols.append([gen_float(rng) for _ in range(nr)])
         else:
@@ -294,11 +303,13 @@ def gen_table(rng, nr, nc):
 
 def gen_write_case(rng, idx, size):
     """size: 'small' | 'medium' | 'max'"""
-    nb = rng.randint(1, 4) if size != "max" else rng.randint(1, 2)
+    nb = 1 if isinstance(size, int) else rng.randint(1, 4) if size != "max" else rng.randint(1, 2)
     names = [rng.choice(NAMES) for _ in range(nb)]
     tables = []
     for b in range(nb):
-        if size == "small":
+        if isinstance(size, int):
+            nr, nc = rng.randint(1, 2), size               # sweep: every column count 1..30 (label numbers #1..#30)
+        elif size == "small":
             nr, nc = rng.randint(1, 6), rng.randint(1, 6)
         elif size == "medium":
             nr, nc = rng.randint(1, 60), rng.randint(1, 30)
@@ -309,7 +320,12 @@ def gen_write_case(rng, idx, size):
         t = gen_table(rng, nr, nc)
         t["name"] = names[b]
         tables.append(t)
-    return {"kind": "write", "id": idx, "tables": tables, "numbered": rng.random() < 0.6, "variant": rng.randint(0, 5)}
+    comments = None
+    if rng.random() < 0.3:           # the comments option: per block None or a list of comment lines written before the block
+        comments = [None if rng.random() < 0.4 else ["c%d %s" % (k, rng.choice(["made by", "_rlnX data_y loop_", "1 2 3", "x"]))
+                                                     for k in range(rng.randint(1, 2))] for _ in range(nb)]
+    return {"kind": "write", "id": idx, "tables": tables, "numbered": rng.random() < 0.6, "variant": rng.randint(0, 11),
+            "comments": comments}
 
 
 def build_frames(case):
@@ -344,12 +360,28 @@ def expect_of(case):
     return out
 
 
-def write_api(frames, path, names, numbered, variant):
+def write_api(frames, path, names, numbered, variant, comments=None):
+    """The caller's own containers are handed over (frames / specifiers / comments lists); str or Path."""
     from cryocat.starfileio import Starfile
+    if variant % 4 == 1:
+        path = pathlib.Path(path)
+    kw = {} if comments is None else {"comments": comments}
     if numbered and variant % 3 == 0:
-        Starfile.write(list(frames), path, specifiers=list(names))          # number_columns defaults to True
+        Starfile.write(frames, path, specifiers=names, **kw)                 # number_columns defaults to True
     else:
-        Starfile.write(list(frames), path, specifiers=list(names), number_columns=numbered)
+        Starfile.write(frames, path, specifiers=names, number_columns=numbered, **kw)
+
+
+def other_calls(ctx):
+    """Unrelated public calls of the module, made between a write and the read of its file (no state may leak)."""
+    from cryocat.starfileio import Starfile
+    p = os.path.join(ctx.workdir, "other.star")
+    with open(p, "w") as fh:
+        fh.write("# other\ndata_optics\n\nloop_\n_rlnA #1\n_rlnB #2\n1 x\n2 y\n\ndata_stopgap_q\nloop_\n_k\n\n7.5\n")
+    Starfile.read(p)
+    Starfile.get_frame_and_comments(p, "data_stopgap_q")
+    Starfile.remove_lines(p, [0], data_specifier="data_optics", number_columns=False)
+    Starfile.get_specifier_id(["data_a", "data_b"], "data_b")
 
 
 # corruption switch of the binding demonstration (never set in normal runs)
@@ -360,18 +392,55 @@ def run_write_cases(ctx, cases, name="trace"):
     wd = ctx.sub(name)
     tpath = os.path.join(wd, "traces.ndjson")
     live = []
+    earlier = None               # (guard over the frames an earlier read returned, its case)
     with open(tpath, "w") as fh:
         for case in cases:
             frames = build_frames(case)
             names = [t["name"] for t in case["tables"]]
-            path = os.path.join(wd, "w_%d.star" % case["id"])
-            _, err = core.call_guarded(write_api, frames, path, names, case["numbered"], case["variant"])
+            comments = case.get("comments")
+            # the same two paths are written over and over (nothing may be remembered per path)
+            path = os.path.join(wd, "w_%s.star" % ("a" if case["id"] % 2 else "b"))
+            # what the call has no business touching: the table objects themselves (values, labels, columns, dtypes) and the
+            # specifier / comment containers.  (The writer may replace the slots of the frames LIST by rounded copies: the
+            # property does not forbid that, the second write below shows it is harmless.)
+            guard = argguard.Guard(tables={i: f for i, f in enumerate(frames)}, specifiers=names, comments=comments)
+            _, err = core.call_guarded(write_api, frames, path, names, case["numbered"], case["variant"], comments)
             ctx.ran(case)
             if err is not None:
                 ctx.fail("call_raises", "Starfile.write: %s" % err, case, {"op": "write"})
                 continue
+            why = guard.changed()
+            if why is not None:
+                ctx.fail("C02_ArgumentsUnchanged", "Starfile.write changed what the caller handed in - %s" % why, case,
+                         {"op": "write", "arg": why.split(":")[0]})
             lines = su.file_lines(path)
+            if case["id"] % 3 == 0:
+                # the SAME list / specifier objects written once more, to another path with the other label style: that file and
+                # its read-back must satisfy every clause against the ORIGINAL tables (validated by StarTrace like the first)
+                path2 = os.path.join(wd, "w_again.star")
+                _, err2 = core.call_guarded(write_api, frames, path2, names, not case["numbered"], case["variant"] + 1, comments)
+                if err2 is not None:
+                    ctx.fail("call_raises", "second Starfile.write with the same argument objects: %s" % err2, case, {"op": "write_again"})
+                else:
+                    res2, rerr2 = core.call_guarded(read_api, path2, case["variant"] + 1, len(names))
+                    read2 = {"ok": rerr2 is None, "blocks": [] if rerr2 is not None else su.project_frames(res2[0], res2[1]), "err": rerr2}
+                    fh.write(json.dumps({"id": case["id"], "lines": su.file_lines(path2), "numbered": not case["numbered"],
+                                         "expect": expect_of(case), "read": {"ok": read2["ok"], "blocks": read2["blocks"]}}) + "\n")
+                    live.append((case, read2, su.file_lines(path2), "write_again"))
+                    os.remove(path2)
+            if case["id"] % 4 == 0:
+                _, oerr = core.call_guarded(other_calls, ctx)
+                if oerr is not None:
+                    # the auxiliary file is itself a text of the property's class: its calls must work
+                    ctx.fail("call_raises", "Starfile calls on an auxiliary two-block file between write and read: %s" % oerr, case,
+                             {"op": "auxiliary"})
             res, rerr = core.call_guarded(read_api, path, case["variant"], len(names))
+            if earlier is not None:
+                why = earlier[0].changed()
+                if why is not None:
+                    ctx.fail("C02_ResultPersistence", "frames returned by an earlier Starfile.read changed after later calls - %s" % why,
+                             {"kind": "write_pair", "first": earlier[1], "second": case}, {"op": "read_written", "aliasing": True})
+            earlier = None if rerr is not None else (argguard.Guard(earlier=[res[0], res[1]]), case)
             if rerr is not None:
                 read = {"ok": False, "blocks": [], "err": rerr}
             else:
@@ -381,7 +450,7 @@ def run_write_cases(ctx, cases, name="trace"):
             os.remove(path)
             fh.write(json.dumps({"id": case["id"], "lines": lines, "numbered": case["numbered"],
                                  "expect": expect_of(case), "read": {"ok": read["ok"], "blocks": read["blocks"]}}) + "\n")
-            live.append((case, read, lines))
+            live.append((case, read, lines, ""))
     if not live:
         return
     cfg = "SPECIFICATION TraceSpec\nCONSTRAINT Report\n"
@@ -390,7 +459,7 @@ def run_write_cases(ctx, cases, name="trace"):
     if len(verdicts) != len(live):
         raise core.MachineryError("StarTrace returned %d verdicts for %d traces\n%s" % (
             len(verdicts), len(live), res.stdout[-2000:]))
-    for i, (case, read, lines) in enumerate(live):
+    for i, (case, read, lines, again) in enumerate(live):
         v = verdicts[i + 1]
         if v["ok"]:
             continue
@@ -398,7 +467,7 @@ def run_write_cases(ctx, cases, name="trace"):
         if clause == "C02_ReadBack":
             ctx.fail("call_raises", "Starfile.read of the written file: %s" % read.get("err"), case, {"op": "read_written"})
             continue
-        op = "read_written" if clause.startswith("C02_Read") else "write"
+        op = ("read_written" if clause.startswith("C02_Read") else "write") + ("_again" if again else "")
         ctx.fail(clause, "rejected by StarTrace (block %s); numbered=%s names=%s; file head: %r" % (
             v.get("block"), case["numbered"], [t["name"] for t in case["tables"]],
             su.b2s(sum([l + [10] for l in lines[:12]], []))[:300]), case, {"op": op})
@@ -428,6 +497,8 @@ def replay(ctx, case):
         run_read_case(ctx, case)
     elif case["kind"] == "write":
         run_write_cases(ctx, [case], name="replay")
+    elif case["kind"] == "write_pair":
+        run_write_cases(ctx, [case["first"], case["second"]], name="replay")
     else:
         raise core.MachineryError("unknown case kind %r" % case.get("kind"))
 
@@ -489,13 +560,16 @@ def run(ctx):
         ctx.extra["seeded_texts"] = n
     # ---- L3: writer + round trip --------------------------------------------------------------
     if want("write"):
-        nsmall, nmed, nmax = ctx.pick((150, 6, 0), (2400, 120, 12))
+        nsmall, nmed, nmax = ctx.pick((130, 6, 0), (2400, 120, 12))
         cases = []
         idx = 0
         for size, cnt in (("small", nsmall), ("medium", nmed), ("max", nmax)):
             for _ in range(cnt):
                 idx += 1
                 cases.append(gen_write_case(ctx.rng, idx, size))
+        for nc in range(1, 31):                 # exhaustive small sweep: every column count of the quantifier
+            idx += 1
+            cases.append(gen_write_case(ctx.rng, idx, nc))
         batch = ctx.pick(400, 300)
         for s in range(0, len(cases), batch):
             run_write_cases(ctx, cases[s:s + batch], name="trace%d" % (s // batch))
